@@ -17,16 +17,16 @@ def quadratic_used_ids():
                 pre_rsubs=[(r'(?s)self\s*\.linear\s*\.as_ref\(\)\s*\.map_or_else\(BTreeSet::new, (\|l\| l\.used_decision_variable_ids\(\))\)', r'opt_ref_map_or_new(&self.linear, \1)', 1)],
                 pipes=[r'(?s)^\{\s*(.*\S)\s*\}\s*$'], pipe_opts=dict(collect='vec_to_btreeset', into_iter='btreeset_into_vec'),
                 closures=[dict(params='l', typed='l: &Linear', ret='BTreeSet<u64>', ensures='ret@ =~= linear_ids(*l)')],
-                proofs=[(('before', r'__p7 \}\s*\}\s*$'), '''proof {
+                proofs=[(('before', r'__coll1 \}\s*\}\s*$'), '''proof {
             let lin = if self.linear is Some { linear_ids(self.linear->Some_0) } else { Set::<u64>::empty() };
-            assert(__p1@.to_set() =~= lin);
-            assert forall|k: u64| __p7@.contains(k) <==> quadratic_used(*self).contains(k) by {
-                if __p6@.contains(k) { let j = choose|j: int| 0 <= j < __p6.len() && __p6[j] == k;
-                    if j < __p1.len() { assert(__p1[j] == k); assert(__p1@.contains(k)); } else { let i = j - __p1.len(); assert(__p5[i] == k);
-                        if i < __p2.len() { assert(*__p2[i] == self.columns[i]); assert(self.columns@.contains(k)); } else { let t = i - __p2.len(); assert(*__p3[t] == self.rows[t]); assert(self.rows@.contains(k)); } } }
-                if lin.contains(k) { assert(__p1@.contains(k)); let j = choose|j: int| 0 <= j < __p1.len() && __p1[j] == k; assert(__p6[j] == k); }
-                if self.columns@.contains(k) { let j = choose|j: int| 0 <= j < self.columns.len() && self.columns[j] == k; assert(__p5[j] == *__p4[j]); assert(__p6[__p1.len() + j] == k); }
-                if self.rows@.contains(k) { let j = choose|j: int| 0 <= j < self.rows.len() && self.rows[j] == k; assert(__p5[__p2.len() + j] == *__p4[__p2.len() + j]); assert(__p6[__p1.len() + __p2.len() + j] == k); }
+            assert(__into1@.to_set() =~= lin);
+            assert forall|k: u64| __coll1@.contains(k) <==> quadratic_used(*self).contains(k) by {
+                if __chain2@.contains(k) { let j = choose|j: int| 0 <= j < __chain2.len() && __chain2[j] == k;
+                    if j < __into1.len() { assert(__into1[j] == k); assert(__into1@.contains(k)); } else { let i = j - __into1.len(); assert(__cloned1[i] == k);
+                        if i < __refs1.len() { assert(*__refs1[i] == self.columns[i]); assert(self.columns@.contains(k)); } else { let t = i - __refs1.len(); assert(*__refs2[t] == self.rows[t]); assert(self.rows@.contains(k)); } } }
+                if lin.contains(k) { assert(__into1@.contains(k)); let j = choose|j: int| 0 <= j < __into1.len() && __into1[j] == k; assert(__chain2[j] == k); }
+                if self.columns@.contains(k) { let j = choose|j: int| 0 <= j < self.columns.len() && self.columns[j] == k; assert(__cloned1[j] == *__chain1[j]); assert(__chain2[__into1.len() + j] == k); }
+                if self.rows@.contains(k) { let j = choose|j: int| 0 <= j < self.rows.len() && self.rows[j] == k; assert(__cloned1[__refs1.len() + j] == *__chain1[__refs1.len() + j]); assert(__chain2[__into1.len() + __refs1.len() + j] == k); }
             }
         }
         ''')])
@@ -40,18 +40,18 @@ def polynomial_used_ids():
         ensures r@ =~= polynomial_ids(*self),''',
                 pipes=[r'(?s)^\{\s*(.*\S)\s*\}\s*$'], pipe_opts=dict(collect='vec_to_btreeset'),
                 closures=[dict(params='term', typed="term: &'a Monomial", ret="Vec<&'a u64>", ensures='ret.len() == term.ids.len() && forall|q: int| 0 <= q < ret.len() ==> *(#[trigger] ret[q]) == term.ids[q]')],
-                proofs=[(('before', r'__p5 \}\s*\}\s*$'), '''proof {
-            let outs = choose|outs: Seq<Vec<&'a u64>>| outs.len() == __p1.len() && (forall|i: int| 0 <= i < __p1.len() ==> __c1.ensures((__p1[i],), #[trigger] outs[i])) && __p3@ == flat(Seq::new(outs.len(), |i: int| outs[i]@), __p1.len() as int);
+                proofs=[(('before', r'__coll1 \}\s*\}\s*$'), '''proof {
+            let outs = choose|outs: Seq<Vec<&'a u64>>| outs.len() == __refs1.len() && (forall|i: int| 0 <= i < __refs1.len() ==> __c1.ensures((__refs1[i],), #[trigger] outs[i])) && __flat1@ == flat(Seq::new(outs.len(), |i: int| outs[i]@), __refs1.len() as int);
             let oo = Seq::new(outs.len(), |i: int| outs[i]@); let n = self.terms.len() as int;
-            assert forall|k: u64| __p5@.contains(k) <==> polynomial_ids(*self).contains(k) by {
+            assert forall|k: u64| __coll1@.contains(k) <==> polynomial_ids(*self).contains(k) by {
                 lemma_poly_ids_mem(self.terms@, n, k);
-                if __p4@.contains(k) {
-                    let j = choose|j: int| 0 <= j < __p4.len() && __p4[j] == k;
-                    assert(__p3@.contains(__p3[j]));
-                    lemma_flat_mem(oo, n, __p3[j]);
-                    let i = choose|i: int| 0 <= i < n && (#[trigger] oo[i]).contains(__p3[j]);
-                    let q = choose|q: int| 0 <= q < oo[i].len() && oo[i][q] == __p3[j];
-                    assert(*__p1[i] == self.terms[i]); assert(__c1.ensures((__p1[i],), outs[i]));
+                if __cloned1@.contains(k) {
+                    let j = choose|j: int| 0 <= j < __cloned1.len() && __cloned1[j] == k;
+                    assert(__flat1@.contains(__flat1[j]));
+                    lemma_flat_mem(oo, n, __flat1[j]);
+                    let i = choose|i: int| 0 <= i < n && (#[trigger] oo[i]).contains(__flat1[j]);
+                    let q = choose|q: int| 0 <= q < oo[i].len() && oo[i][q] == __flat1[j];
+                    assert(*__refs1[i] == self.terms[i]); assert(__c1.ensures((__refs1[i],), outs[i]));
                     assert(self.terms[i].ids[q] == k);
                     lemma_mono_ids_mem(self.terms[i].ids@, self.terms[i].ids.len() as int, k);
                 }
@@ -59,16 +59,16 @@ def polynomial_used_ids():
                     let i = choose|i: int| 0 <= i < n && #[trigger] mono_ids(self.terms@[i].ids@, self.terms@[i].ids.len() as int).contains(k);
                     lemma_mono_ids_mem(self.terms[i].ids@, self.terms[i].ids.len() as int, k);
                     let q = choose|q: int| 0 <= q < self.terms[i].ids.len() && self.terms[i].ids@[q] == k;
-                    assert(*__p1[i] == self.terms[i]); assert(__c1.ensures((__p1[i],), outs[i]));
+                    assert(*__refs1[i] == self.terms[i]); assert(__c1.ensures((__refs1[i],), outs[i]));
                     assert(*oo[i][q] == k); assert(oo[i].contains(oo[i][q]));
                     lemma_flat_mem(oo, n, oo[i][q]);
-                    let j = choose|j: int| 0 <= j < __p3.len() && __p3[j] == oo[i][q];
-                    assert(__p4[j] == k);
+                    let j = choose|j: int| 0 <= j < __flat1.len() && __flat1[j] == oo[i][q];
+                    assert(__cloned1[j] == k);
                 }
             }
         }
         ''')],
-                rsubs=[(r'let __p3 = vec_flat_map\(__p1, ', 'let __c1 = ', 1), (r'\}\); let __p4 = vec_cloned', '}; let __p3 = vec_flat_map(__p1, __c1); let __p4 = vec_cloned', 1)])
+                rsubs=[(r'let __flat1 = vec_flat_map\(__refs1, ', 'let __c1 = ', 1), (r'\}\); let __cloned1 = vec_cloned', '}; let __flat1 = vec_flat_map(__refs1, __c1); let __cloned1 = vec_cloned', 1)])
 
 
 def linear_used_ids():
